@@ -33,6 +33,8 @@ TARGETS += ["IbicusModel.Lemmas.GenDebWinSdm"]  # tier A of SDM relative (`_appl
 GEN += ["DebWin"]  # Gen.DebWin: dataflow programs extracted by translator/extract_debiasers.py
 TARGETS += ["IbicusModel.Lemmas.GenIsimipStep6"]  # tier A of ISIMIP step 6 (`_step6_adjust_values_between_thresholds`: fixed fit arguments from the has_* flags, fallback structure; `step6`; `_apply_on_window`)
 GEN += ["IsimipStep6"]  # Gen.IsimipStep6: symbolic reading by translator/extract_isimip_step6.py
+TARGETS += ["IbicusModel.Props.Capstone3"]  # capstone 3: C10 stated on the denotation of the regenerated per-window pieces (Gen.Debiasers kernels, Gen.DebWin programs, Gen.IsimipStep6.step6 / apply_on_window); the audit imports it
+GEN += ["Loops", "GridLoops", "DebWin", "Debiasers", "IsimipStep6"]  # the groups capstone 3 (through Props.Capstone) composes (lean_phase regenerates every transitively imported group anyway)
 
 DAY = 86400.0
 THR_ISIMIP = 0.1 / DAY  # lower_threshold of ISIMIP pr, pr_lower_threshold of SDM, censoring threshold of QM censored
